@@ -37,8 +37,8 @@ MC_CFGS = {
 SIM_CFGS = {
     'quick': [('BertE.sim.cfg', 16, 30), ('BertE.simsk.cfg', 12, 30), ('BertE.simnq.cfg', 8, 24),
               ('BertE.sims.cfg', 12, 30), ('BertE.simf.cfg', 12, 45), ('BertE.simh.cfg', 10, 30), ('BertE.simr.cfg', 12, 36), ('BertE.sima.cfg', 12, 36), ('BertE.simo.cfg', 8, 32)],
-    'thorough': [('BertE.sim.cfg', 400, 40), ('BertE.simsk.cfg', 300, 40), ('BertE.simnq.cfg', 150, 30),
-                 ('BertE.sims.cfg', 300, 40), ('BertE.simf.cfg', 300, 60), ('BertE.simsa.cfg', 200, 40), ('BertE.simh.cfg', 300, 40), ('BertE.simr.cfg', 400, 45), ('BertE.sima.cfg', 400, 45), ('BertE.simm.cfg', 200, 40), ('BertE.simam.cfg', 200, 40), ('BertE.simfa.cfg', 300, 60), ('BertE.simo.cfg', 300, 40)],
+    'thorough': [('BertE.sim.cfg', 150, 40), ('BertE.simsk.cfg', 150, 40), ('BertE.simnq.cfg', 150, 30),
+                 ('BertE.sims.cfg', 150, 40), ('BertE.simf.cfg', 150, 60), ('BertE.simsa.cfg', 150, 40), ('BertE.simh.cfg', 150, 40), ('BertE.simr.cfg', 150, 45), ('BertE.sima.cfg', 150, 45), ('BertE.simm.cfg', 150, 40), ('BertE.simam.cfg', 150, 40), ('BertE.simfa.cfg', 150, 60), ('BertE.simo.cfg', 150, 40)],
 }
 
 
@@ -158,7 +158,65 @@ def run_mc(cfgs, scratch, budget_s):
         return list(ex.map(_mc_one, [(c, scratch, budget_s, 4) for c in cfgs]))
 
 
-def run_sim(sims, scratch, seed):
+class Spill:
+    """Observation streams go to ndjson shard files as soon as a group of executions is finished; only small
+    summaries stay in memory (the parent process is forked for every scenario: it must stay small)."""
+    def __init__(self, scratch, shards=16):
+        self.scratch = scratch
+        self.paths = [os.path.join(scratch, 'stream_%02d.ndjson' % i) for i in range(shards)]
+        self.tid = 0
+        self.statuses = collections.Counter()
+        self.jobs = 0
+        self.outs = []
+
+    def add(self, group):
+        fs = {}
+        for o in group:
+            self.tid += 1
+            o['tid'] = self.tid
+            path = self.paths[self.tid % len(self.paths)]
+            f = fs.get(path)
+            if f is None:
+                f = fs[path] = open(path, 'a')
+            hist = []
+            for rec in o['trace']:
+                rec['tid'] = self.tid
+                f.write(json.dumps(rec) + '\n')
+                if rec['ev'] == 'job_end':
+                    self.statuses[rec['job']['status']] += 1
+                    self.jobs += 1
+                if rec['ev'] in ('env', 'job_end') and len(hist) < 14:
+                    hist.append(rec['act'] or dict(job=rec['job']['kind'], arg=rec['job']['arg'],
+                                                   status=rec['job']['status']))
+            o['hist'] = hist
+            o['shard'] = path
+            o['trace'] = []
+            o.pop('results', None)
+            self.outs.append(o)
+        for f in fs.values():
+            f.close()
+
+    def lines(self, pairs):
+        """Records (tid, k) -> rec, one pass over each shard file concerned."""
+        byid = {o['tid']: o for o in self.outs}
+        want = {}
+        for (t, k) in pairs:
+            want.setdefault(byid[t]['shard'], set()).add((t, k))
+        out = {}
+        for path, keys in want.items():
+            tids = {t for (t, _) in keys}
+            with open(path) as f:
+                for ln in f:
+                    # cheap pre-filter before parsing
+                    if '"tid": ' not in ln:
+                        continue
+                    rec = json.loads(ln)
+                    if rec['tid'] in tids and (rec['tid'], rec['k']) in keys:
+                        out[(rec['tid'], rec['k'])] = rec
+        return out
+
+
+def run_sim(sims, scratch, seed, sink=None):
     outs, stats = [], []
     tid = 100000
     for cfgname, num, depth in sims:
@@ -176,6 +234,8 @@ def run_sim(sims, scratch, seed):
         for x in o:
             x['id'] = 'spec/%s/%d' % (cfgname, x['tid'])
             x['results'] = []
+        if sink is not None:
+            sink(o)                      # streams written to disk, traces dropped from memory
         outs += o
         acts = collections.Counter()
         for x in o:
@@ -230,7 +290,8 @@ def _sysrun(tier, seed, log=print):
         for m in mc:
             log('      %(cfg)s: %(distinct)d distinct states, depth %(depth)d, violated=%(violated)s, %(wall_s)ss' % m)
         log('[2/5] TLC -simulate -> replay of specification behaviours on the real code')
-        sim_outs, sim_stats = run_sim(SIM_CFGS[tier], scratch, seed)
+        spill = Spill(scratch)
+        sim_outs, sim_stats = run_sim(SIM_CFGS[tier], scratch, seed, sink=spill.add)
         for s in sim_stats:
             log('      %s' % {k: v for k, v in s.items() if k != 'actions'})
         log('[3/5] scripted families on the real code')
@@ -238,7 +299,13 @@ def _sysrun(tier, seed, log=print):
         if tier == 'quick':
             core = [x for x in scns if x.get('core')]
             scns = core + _sample([x for x in scns if not x.get('core')], rng, 72)
-        fam_outs = explore.run_scenarios(scns, scratch)
+        fam_outs = []
+        for i in range(0, len(scns), 200):          # in slices: each slice's streams leave the memory at once
+            part = explore.run_scenarios(scns[i:i + 200], scratch)
+            for sc, o in zip(scns[i:i + 200], part):
+                o['id'] = sc['id']
+            spill.add(part)
+            fam_outs += part
         log('      %d scenarios, %d with harness errors' % (len(fam_outs), sum(1 for o in fam_outs if o['error'])))
         log('[4/5] fault / third-party enumeration on the real code')
         bases = fault_bases(tier)
@@ -251,27 +318,25 @@ def _sysrun(tier, seed, log=print):
         if tier == 'quick':
             variants = [v for v in variants if v.get('core')] + \
                 _sample([v for v in variants if not v.get('core')], rng, 84, key=lambda v: v['fault']['kind'])
-        var_outs = explore.run_scenarios(variants, scratch)
-        for v, o in zip(variants, var_outs):
-            o['fault'] = v['fault']
+        spill.add(base_outs)
+        var_outs = []
+        for i in range(0, len(variants), 200):
+            part = explore.run_scenarios(variants[i:i + 200], scratch)
+            for v, o in zip(variants[i:i + 200], part):
+                o['fault'] = v['fault']
+                o['id'] = v['id']
+            spill.add(part)
+            var_outs += part
         log('      %d base jobs histories, %d variants (of %d enumerated)' % (len(bases), len(variants), nvar_all))
         log('[5/5] TLC: TraceMon.tla judges every recorded observation stream')
-        allouts = []
-        tid = 0
-        for group in (fam_outs, base_outs, var_outs, sim_outs):
-            for o in group:
-                tid += 1
-                o['tid'] = tid
-                for rec in o['trace']:
-                    rec['tid'] = tid
-                allouts.append(o)
-        viol, lines, errs = explore.validate_traces(allouts, scratch)
+        allouts = spill.outs
+        viol, lines, errs = explore.validate_files(spill.paths, scratch)
         byid = {o['tid']: o for o in allouts}
+        recs = spill.lines({(t, k) for (t, k, _) in viol})
         vout = []
         for (t, k, clause) in viol:
             o = byid[t]
-            rec = next((r for r in o['trace'] if r['k'] == k), None)
-            vout.append(dict(clause=clause, scenario=o['id'], k=k, sig=_sig(clause, o, rec)))
+            vout.append(dict(clause=clause, scenario=o['id'], k=k, sig=_sig(clause, o, recs.get((t, k))), tid=t))
         res = dict(
             tier=tier, seed=seed, key=key, wall_s=round(time.time() - t0, 1),
             mc=mc, sim=sim_stats,
@@ -279,32 +344,32 @@ def _sysrun(tier, seed, log=print):
                          for o in sim_outs if o['div']][:20],
             counts=dict(scenarios=len(fam_outs), bases=len(base_outs), variants=len(var_outs),
                         variants_enumerated=nvar_all, behaviours=len(sim_outs),
-                        lines=lines, jobs=sum(1 for o in allouts for r in o['trace'] if r['ev'] == 'job_end'),
+                        lines=lines, jobs=spill.jobs,
                         errors=sum(1 for o in allouts if o['error'])),
-            statuses=collections.Counter(r['job']['status'] for o in allouts for r in o['trace']
-                                         if r['ev'] == 'job_end').most_common(),
+            statuses=spill.statuses.most_common(),
             families=collections.Counter(o['id'].split('/')[0].split('|')[0] for o in allouts).most_common(),
             harness_errors=[dict(scenario=o['id'], error=o['error'][-800:]) for o in allouts if o['error']][:10],
             monitor_errors=errs[:3],
             violations=vout,
-            samples=[dict(scenario=o['id'],
-                          history=[r['act'] or dict(job=r['job']['kind'], arg=r['job']['arg'],
-                                                    status=r['job']['status'])
-                                   for r in o['trace'] if r['ev'] in ('env', 'job_end')][:14])
+            samples=[dict(scenario=o['id'], history=o.get('hist', []))
                      for o in (fam_outs[:2] + var_outs[:2] + sim_outs[:2])],
         )
         # keep the scenarios of violations for replay
         rdir = os.path.join(VERIF, 'replays')
         os.makedirs(rdir, exist_ok=True)
         scn_by_id = {s['id']: s for s in scns + bases + variants}
+        written = set()
         for v in vout:
             h = hashlib.sha1((v['scenario'] + v['clause']).encode()).hexdigest()[:12]
             v['replay'] = os.path.join(rdir, '%s_%s.json' % (v['clause'].split('.')[0], h))
-            o = next(x for x in allouts if x['id'] == v['scenario'])
+            o = byid[v['tid']]
+            if v['replay'] in written:
+                continue
+            written.add(v['replay'])
             with open(v['replay'], 'w') as f:
                 json.dump(dict(clause=v['clause'], k=v['k'], scenario=scn_by_id.get(v['scenario']),
                                labels=o.get('labels'), seed=seed, tier=tier,
-                               line=next((r for r in o['trace'] if r['k'] == v['k']), None)), f, indent=1)
+                               line=recs.get((v['tid'], v['k']))), f, indent=1)
         with open(path, 'w') as f:
             json.dump(res, f)
         return res
